@@ -316,6 +316,7 @@ func init() {
 			func(c *Ctx) { c.ruleEffect("R-EFFECT", c.entryData("ValidateCompatibility"), false, true) },
 			func(c *Ctx) { c.ruleOverlap("R-OVERLAP") },
 			func(c *Ctx) { c.ruleKindGate("R-KINDGATE") },
+			func(c *Ctx) { c.ruleConvertAll("R-CONVERTALL"); c.R.Floor("R-CONVERTALL", 4) },
 			func(c *Ctx) { c.ruleBoundsConsulted("R-MUSTUSE") },
 			func(c *Ctx) { c.ruleTerm("R-TERM", c.entryData("ValidateCompatibility"), true); c.R.Floor("R-TERM", 1) },
 			func(c *Ctx) {
